@@ -27,19 +27,27 @@
 (*           nc (size of the chain committee), aidx (index of the Alphabet *)
 (*           contract); never changes                                      *)
 (*                                                                         *)
+(*   ballots, cur   without Notary: the stored ballot list and the height  *)
+(*           seen by the last transaction; cheque, the fee decisions,      *)
+(*           alphabetUpdate (to the list already stored) and candidate     *)
+(*           removal are then collected by common.Vote / RemoveVotes       *)
+(*           (MainChainBallot), interleaved, exactly as in MainChainVote   *)
+(*                                                                         *)
 (* Every invocation record e carries e.mint: the GAS the native contract   *)
 (* minted to tracked accounts inside the same transaction (NEO transfers   *)
 (* claim GAS; read from the GAS Transfer notifications with from = null).  *)
 (* It is an input of the step: the Spec cannot know it.                    *)
 (***************************************************************************)
-EXTENDS Integers, Sequences, FiniteSets, TLC
+EXTENDS Integers, Sequences, FiniteSets, TLC, MainChainBallot      \* MainChainBallot: common/vote.go
 
 CONSTANTS
   B,           \* limb base
   UnitL,       \* 1 GAS in limbs (10^8)
   MaxW,        \* maxBalanceAmount: largest withdrawal / deposit in whole GAS (9000)
   Users, Cands, KeyU, IRSeq,          \* KeyU: universe of keys storable in NeoFS; IRSeq: <<"r1",...>> designation prefixes
-  SignerSets, Amounts, Wholes, Mints, Ids, Acts
+  KeySeq,                             \* KeyU in the order in which the keys are stored
+  SignerSets, Amounts, Wholes, Mints, Acts, Gaps,
+  Ids, FeeIds, AlphaIds               \* decision ids offered to cheque / setConfig / alphabetUpdate
 
 Nil == "nil"
 Contracts == {"neofs", "proc", "proxy", "alph"}
@@ -47,6 +55,8 @@ IRAll == {IRSeq[i] : i \in 1..Len(IRSeq)}
 Acct  == Contracts \cup Users \cup Cands \cup KeyU \cup IRAll
 NeoAcct == Users \cup {"alph"}
 MemberName(i) == "m" \o ToString(i)          \* committee member with index i (order of neo.getCommittee)
+DelId(c) == "del:" \o c                      \* sha256(key || "delete")
+AllIds   == Ids \cup FeeIds \cup AlphaIds \cup {DelId(c) : c \in Cands}
 
 -----------------------------------------------------------------------------
 \* limb arithmetic (3 limbs, base B, little endian); all operands are normalised
@@ -69,26 +79,39 @@ DivS(a, d) == LET q3 == a[3] \div d  t2 == (a[3] % d) * B + a[2]                
 MaxDep == MulS(UnitL, MaxW)                  \* maxBalanceAmountGAS
 
 -----------------------------------------------------------------------------
-VARIABLES notary, dep, gas, neo, wfee, cfee, cands, irN, ev
-vars == <<notary, dep, gas, neo, wfee, cfee, cands, irN, ev>>
+VARIABLES notary, dep, gas, neo, wfee, cfee, cands, irN, ballots, cur, ev
+vars == <<notary, dep, gas, neo, wfee, cfee, cands, irN, ballots, cur, ev>>
+\* ballots: the value under "ballots" (only without Notary); cur: ledger.CurrentIndex() seen by the last
+\* transaction, a step with gap g runs at cur+g (every step is a block of its own here, g >= 1)
 \* dep = [skeys, nc, aidx]: the deployment (never changes)
 StoredKeys == dep.skeys
 NC         == dep.nc
 AlphIdx    == dep.aidx
+AlphaSeq   == SelectSeq(KeySeq, LAMBDA k : k \in StoredKeys)          \* the stored list
+Invoker(S) == InvokerOf(AlphaSeq, S, Nil)
+ThrS       == Thr(Cardinality(StoredKeys))
 
 NoNtf == <<>>
 Ntf(n, a, b, amt, id) == [n |-> n, a |-> a, b |-> b, amt |-> amt, id |-> id]
 NoMint == [a \in Acct |-> Z]
 
 \* act, signers, u = paying/owning account, v = receiver / target / candidate, amt (limbs), w (whole GAS or small
-\* integer argument), k = kind (deposit data kind / token / fee name), id, mint
-Event(act, S, u, v, amt, w, k, id, mint, res, ret, ntf) ==
-  [act |-> act, S |-> S, u |-> u, v |-> v, amt |-> amt, w |-> w, k |-> k, id |-> id, mint |-> mint,
+\* integer argument), k = kind (deposit data kind / token / fee name), id, gap (blocks since the last step), mint
+Event(act, S, u, v, amt, w, k, id, gap, mint, res, ret, ntf) ==
+  [act |-> act, S |-> S, u |-> u, v |-> v, amt |-> amt, w |-> w, k |-> k, id |-> id, gap |-> gap, mint |-> mint,
    res |-> res, ret |-> ret, ntf |-> ntf]
 
 Keep == [res |-> "HALT", ret |-> "null", gas |-> gas, neo |-> neo, wfee |-> wfee, cfee |-> cfee, cands |-> cands,
-         irN |-> irN, ntf |-> NoNtf]
+         irN |-> irN, ballots |-> ballots, ntf |-> NoNtf]
 FaultR == [Keep EXCEPT !.res = "FAULT"]
+
+\* without Notary: the common tail of the vote-collected methods (as in MainChainVote): vote, return below the
+\* threshold, otherwise RemoveVotes and act
+Voting(e, id, from, Effect(_)) ==
+  LET v == VoteOp(ballots, cur + e.gap, id, from)
+  IN  IF v.n < ThrS THEN [Keep EXCEPT !.ballots = v.bl]
+      ELSE IF Len(v.bl) = 0 THEN FaultR
+      ELSE Effect(RemoveVotes(v.bl, id))
 
 Move(G, from, to, a) == [[G EXCEPT ![from] = Sub(@, a)] EXCEPT ![to] = Add(@, a)]
 Minted(e) == [a \in Acct |-> Add(gas[a], e.mint[a])]
@@ -118,12 +141,14 @@ WithdrawR(e) ==
       ELSE IF Lt(gas[u], MulS(wfee, k)) THEN FaultR                          \* a fee transfer fails
       ELSE [Keep EXCEPT !.gas = G, !.ntf = <<Ntf("Withdraw", u, Nil, MulS(UnitL, w), Nil)>>]
 
-\* Cheque(id, user, amount, lockAcc) with Notary (the vote-collected variant is MainChainVote)
+\* Cheque(id, user, amount, lockAcc): with Notary the committee's 2/3+1 account, without the votes of the stored keys
 ChequeR(e) ==
-  IF ~notary THEN FaultR
-  ELSE IF "ALPHA" \notin e.S THEN FaultR
-  ELSE IF Lt(gas["neofs"], e.amt) THEN FaultR
-  ELSE [Keep EXCEPT !.gas = Move(gas, "neofs", e.v, e.amt), !.ntf = <<Ntf("Cheque", e.v, Nil, e.amt, e.id)>>]
+  LET Pay(Bl) == IF Lt(gas["neofs"], e.amt) THEN FaultR                     \* gas.Transfer refuses: everything reverted
+                 ELSE [Keep EXCEPT !.ballots = Bl, !.gas = Move(gas, "neofs", e.v, e.amt),
+                                   !.ntf = <<Ntf("Cheque", e.v, Nil, e.amt, e.id)>>]
+  IN  IF notary THEN (IF "ALPHA" \notin e.S THEN FaultR ELSE Pay(ballots))
+      ELSE IF Invoker(e.S) = Nil THEN FaultR
+      ELSE Voting(e, e.id, Invoker(e.S), Pay)
 
 \* InnerRingCandidateAdd(key)
 CandAddR(e) ==
@@ -133,15 +158,30 @@ CandAddR(e) ==
       ELSE IF Lt(gas[c], cfee) THEN FaultR
       ELSE [Keep EXCEPT !.gas = Move(gas, c, "neofs", cfee), !.cands = cands \cup {c}]
 
-\* InnerRingCandidateRemove(key): the candidate itself, or (Notary) the 2/3+1 account of the STORED keys
+\* InnerRingCandidateRemove(key): the candidate itself, or (Notary) the 2/3+1 account of the STORED keys,
+\* or (no Notary) the votes of the stored keys for sha256(key || "delete")
 CandRemoveR(e) ==
-  IF e.v \in e.S \/ (notary /\ "STORED" \in e.S) THEN [Keep EXCEPT !.cands = cands \ {e.v}] ELSE FaultR
+  LET Rm(Bl) == [Keep EXCEPT !.ballots = Bl, !.cands = cands \ {e.v}]
+  IN  IF e.v \in e.S THEN Rm(ballots)
+      ELSE IF notary THEN (IF "STORED" \in e.S THEN Rm(ballots) ELSE FaultR)
+      ELSE IF Invoker(e.S) = Nil THEN FaultR
+      ELSE Voting(e, DelId(e.v), Invoker(e.S), Rm)
 
-\* SetConfig(id, key, val) with Notary for the two fee keys (e.k = "wfee" | "cfee")
+\* SetConfig(id, key, val) for the two fee keys (e.k = "wfee" | "cfee")
 SetFeeR(e) ==
-  IF ~notary \/ "ALPHA" \notin e.S THEN FaultR
-  ELSE [Keep EXCEPT !.wfee = IF e.k = "wfee" THEN e.amt ELSE wfee, !.cfee = IF e.k = "cfee" THEN e.amt ELSE cfee,
-                    !.ntf = <<Ntf("SetConfig", e.k, Nil, e.amt, e.id)>>]
+  LET Set(Bl) == [Keep EXCEPT !.ballots = Bl, !.wfee = IF e.k = "wfee" THEN e.amt ELSE wfee,
+                              !.cfee = IF e.k = "cfee" THEN e.amt ELSE cfee,
+                              !.ntf = <<Ntf("SetConfig", e.k, Nil, e.amt, e.id)>>]
+  IN  IF notary THEN (IF "ALPHA" \notin e.S THEN FaultR ELSE Set(ballots))
+      ELSE IF Invoker(e.S) = Nil THEN FaultR
+      ELSE Voting(e, e.id, Invoker(e.S), Set)
+
+\* AlphabetUpdate(id, the list that is stored already): the stored list does not change, only ballots and the event
+AlphaSameR(e) ==
+  LET Upd(Bl) == [Keep EXCEPT !.ballots = Bl, !.ntf = <<Ntf("AlphabetUpdate", Nil, Nil, Z, e.id)>>]
+  IN  IF notary THEN (IF "ALPHA" \notin e.S THEN FaultR ELSE Upd(ballots))
+      ELSE IF Invoker(e.S) = Nil THEN FaultR
+      ELSE Voting(e, e.id, Invoker(e.S), Upd)
 
 \* RoleManagement.designateAsRole(NeoFSAlphabet, r1..r<w>) by the committee
 DesignateR(e) ==
@@ -185,6 +225,7 @@ ResultOf(e) ==
     [] e.act = "candAdd"   -> CandAddR(e)
     [] e.act = "candRemove"-> CandRemoveR(e)
     [] e.act = "setFee"    -> SetFeeR(e)
+    [] e.act = "alphaSame" -> AlphaSameR(e)
     [] e.act = "designate" -> DesignateR(e)
     [] e.act = "emit"      -> EmitR(e)
     [] e.act = "pay"       -> PayR(e)
@@ -193,26 +234,32 @@ ResultOf(e) ==
 Apply(e) ==
   LET R == ResultOf(e) IN
   /\ gas' = R.gas /\ neo' = R.neo /\ wfee' = R.wfee /\ cfee' = R.cfee /\ cands' = R.cands /\ irN' = R.irN
+  /\ ballots' = R.ballots /\ cur' = cur + e.gap
   /\ UNCHANGED <<notary, dep>>
   /\ ev' = [e EXCEPT !.res = R.res, !.ret = R.ret, !.ntf = R.ntf]
 
-Inv0(act, S, u, v, amt, w, k, id, mint) == Event(act, S, u, v, amt, w, k, id, mint, "HALT", "null", NoNtf)
+InvG(act, S, u, v, amt, w, k, id, gap, mint) == Event(act, S, u, v, amt, w, k, id, gap, mint, "HALT", "null", NoNtf)
 
 MintTo(a, m) == [NoMint EXCEPT ![a] = m]
 
 \* P/PS: how argument and signer sets are explored (all / one random element); Sg(S, h): the signer set used
-\* given the explored set S and the natural signers h of the call (exhaustive: S; simulation: mostly h)
-NextOf(P(_), PS(_), Sg(_, _)) ==
-  \E S \in PS(SignerSets) :
+\* given the explored set S and the natural signers h of the call (exhaustive: S; simulation: mostly h);
+\* PH: how the natural voter of a vote-collected call is chosen (exhaustive: irrelevant, one fixed; simulation: random)
+Voters == IF notary THEN {"ALPHA"} ELSE StoredKeys
+NextOf(P(_), PS(_), Sg(_, _), PH(_)) ==
+  \E S \in PS(SignerSets), g \in P(Gaps) :
+    LET Inv0(act, SS, u, v, amt, w, k, id, mint) == InvG(act, SS, u, v, amt, w, k, id, g, mint) IN
     \/ "deposit" \in Acts /\ \E u \in P(Users), a \in P(Amounts), dk \in P({"none", "empty", "h20", "b19", "b21", "magic"}), v \in P(Users) :
           Apply(Inv0("deposit", S \cup {u}, u, v, a, 0, dk, Nil, NoMint))
     \/ "withdraw" \in Acts /\ \E u \in P(Users), w \in P(Wholes) : Apply(Inv0("withdraw", Sg(S, {u}), u, Nil, Z, w, Nil, Nil, NoMint))
-    \/ "cheque" \in Acts /\ notary /\ \E u \in P(Users), a \in P(Amounts), id \in P(Ids) :
-          Apply(Inv0("cheque", Sg(S, {"ALPHA"}), Nil, u, a, 0, Nil, id, NoMint))
+    \/ "cheque" \in Acts /\ \E u \in P(Users), a \in P(Amounts), id \in P(Ids), k \in PH(Voters) :
+          Apply(Inv0("cheque", Sg(S, {k}), Nil, u, a, 0, Nil, id, NoMint))
     \/ "candAdd" \in Acts /\ \E c \in P(Cands) : Apply(Inv0("candAdd", Sg(S, {c}), Nil, c, Z, 0, Nil, Nil, NoMint))
-    \/ "candRemove" \in Acts /\ \E c \in P(Cands) : Apply(Inv0("candRemove", Sg(S, {c}), Nil, c, Z, 0, Nil, Nil, NoMint))
-    \/ "setFee" \in Acts /\ notary /\ \E k \in P({"wfee", "cfee"}), a \in P(Amounts), id \in P(Ids) :
-          Apply(Inv0("setFee", Sg(S, {"ALPHA"}), Nil, Nil, a, 0, k, id, NoMint))
+    \/ "candRemove" \in Acts /\ \E c \in P(Cands) : \E k \in PH(StoredKeys \cup {c}) : Apply(Inv0("candRemove", Sg(S, {k}), Nil, c, Z, 0, Nil, Nil, NoMint))
+    \/ "setFee" \in Acts /\ \E k \in P({"wfee", "cfee"}), a \in P(Amounts), id \in P(FeeIds), kk \in PH(Voters) :
+          Apply(Inv0("setFee", Sg(S, {kk}), Nil, Nil, a, 0, k, id, NoMint))
+    \/ "alphaSame" \in Acts /\ \E id \in P(AlphaIds), kk \in PH(Voters) :
+          Apply(Inv0("alphaSame", Sg(S, {kk}), Nil, Nil, Z, 0, Nil, id, NoMint))
     \/ "designate" \in Acts /\ \E n \in P(1..Len(IRSeq)) : Apply(Inv0("designate", Sg(S, {"CMT"}), Nil, Nil, Z, n, Nil, Nil, NoMint))
     \/ "emit" \in Acts /\ \E m \in P(Mints) : Apply(Inv0("emit", Sg(S, {MemberName(AlphIdx)}), Nil, Nil, Z, 0, Nil, Nil, MintTo("alph", m)))
     \/ "pay" \in Acts /\ \E u \in P(Users), t \in P({"proc", "proxy", "alph"}), a \in P(Amounts), k \in P({"GAS", "FOREIGN", "DIRECT"}) :
@@ -254,15 +301,47 @@ C19_WithdrawFee(e) ==
              /\ IF notary THEN gas'["proc"] = Add(gas["proc"], wfee) /\ Others({e.u, "proc"})
                 ELSE (\A s \in StoredKeys : gas'[s] = Add(gas[s], wfee)) /\ Others({e.u} \cup StoredKeys)
         /\ e.res = "FAULT" => gas' = gas /\ e.ntf = NoNtf
-\* an approved cheque pays exactly its amount, once
-C19_ChequePays(e) ==
-  e.act = "cheque" /\ notary =>
-    /\ "ALPHA" \in e.S /\ Leq(e.amt, gas["neofs"]) => e.res = "HALT"
-    /\ e.res = "HALT" =>
-         /\ "ALPHA" \in e.S
-         /\ gas' = Move(gas, "neofs", e.v, e.amt)
-         /\ e.ntf = <<Ntf("Cheque", e.v, Nil, e.amt, e.id)>>
-    /\ e.res = "FAULT" => gas' = gas /\ e.ntf = NoNtf
+\* Without Notary "the Alphabet approves" is the abstract round machine of C17, per decision id:
+\*   rd[id] = [vs, last]: distinct stored keys that voted for id in the open round, height of the last counted vote;
+\* a HALTed vote of stored key k restarts the round when it is stale, adds k if new, and completes the quorum iff
+\* k is new and |vs + k| >= floor(2n/3)+1; the round is cleared then (the stored list never changes here).
+RdEmpty == [vs |-> {}, last |-> 0]
+RdInit  == [id \in AllIds |-> RdEmpty]
+IsVote(e)   == ~notary /\ (e.act \in {"cheque", "setFee", "alphaSame"} \/ (e.act = "candRemove" /\ e.v \notin e.S))
+VoteId(e)   == IF e.act = "candRemove" THEN DelId(e.v) ELSE e.id
+MembersOf(e) == e.S \cap StoredKeys
+Member(e)   == CHOOSE k \in MembersOf(e) : TRUE
+Counted(e)  == IsVote(e) /\ Cardinality(MembersOf(e)) = 1 /\ e.res = "HALT"     \* every voter signs its own transaction
+Fresh(rd, e) == rd[VoteId(e)].vs = {} \/ cur' - rd[VoteId(e)].last > Window
+Vs0(rd, e)   == IF Fresh(rd, e) THEN {} ELSE rd[VoteId(e)].vs
+IsNew(rd, e) == Member(e) \notin Vs0(rd, e)
+Fires(rd, e) == IsNew(rd, e) /\ Cardinality(Vs0(rd, e) \cup {Member(e)}) >= ThrS
+RdNext(rd, e) ==
+  IF ~Counted(e) THEN rd
+  ELSE [rd EXCEPT ![VoteId(e)] = IF Fires(rd, e) THEN RdEmpty
+                                 ELSE [vs |-> Vs0(rd, e) \cup {Member(e)},
+                                       last |-> IF IsNew(rd, e) THEN cur' ELSE rd[VoteId(e)].last]]
+
+\* an approved cheque pays exactly its amount, exactly once: with Notary in the invocation witnessed by the Alphabet
+\* account, without in exactly the invocation that completes the quorum for its id - and in no other (not before,
+\* not on a repeated or late extra vote after the payout: that starts a new round)
+C19_ChequePays(rd, e) ==
+  e.act = "cheque" =>
+    IF notary
+    THEN /\ "ALPHA" \in e.S /\ Leq(e.amt, gas["neofs"]) => e.res = "HALT"
+         /\ e.res = "HALT" =>
+              /\ "ALPHA" \in e.S
+              /\ gas' = Move(gas, "neofs", e.v, e.amt)
+              /\ e.ntf = <<Ntf("Cheque", e.v, Nil, e.amt, e.id)>>
+         /\ e.res = "FAULT" => gas' = gas /\ e.ntf = NoNtf
+    ELSE IF Cardinality(MembersOf(e)) > 1 THEN TRUE
+    ELSE IF MembersOf(e) = {} \/ e.res = "FAULT" THEN gas' = gas /\ e.ntf = NoNtf
+    ELSE /\ IF Fires(rd, e)
+            THEN gas' = Move(gas, "neofs", e.v, e.amt) /\ e.ntf = <<Ntf("Cheque", e.v, Nil, e.amt, e.id)>>
+            ELSE gas' = gas /\ e.ntf = NoNtf
+\* a stored key's cheque vote that the contract can pay is accepted
+C19_ChequeAccepted(e) ==
+  e.act = "cheque" /\ ~notary /\ Cardinality(MembersOf(e)) = 1 /\ Leq(e.amt, gas["neofs"]) => e.res = "HALT"
 \* a candidate registration costs exactly the configured fee
 C19_CandidateFee(e) ==
   e.act = "candAdd" =>
@@ -307,6 +386,6 @@ C19_OnlyGAS(e) ==
           => e.res = "HALT" /\ neo'["alph"] = neo["alph"] + e.w /\ neo'[e.u] = neo[e.u] - e.w
 \* nothing but the operations above moves GAS of the tracked accounts
 C19_NoOtherMoves(e) ==
-  e.act \in {"candRemove", "setFee", "designate"} \/ e.res = "FAULT" => gas' = gas
+  e.act \in {"candRemove", "setFee", "alphaSame", "designate"} \/ e.res = "FAULT" => gas' = gas
 
 =============================================================================
